@@ -770,6 +770,7 @@ def enumerate_items(thorough):
     core_cmd = ["sub-flag", "bare", "pipe", "gt", "attr-flag"]
     stmt_wraps = [w for w in wraps if not S.WRAPS[w][0]]
     reps = ["assign", "for", "param-pos", "import", "with", "global-func"]
+    fam_reps = list({S.B[b]["family"]: b for b in reversed(binders)}.values())[::-1]  # first binder of each family
 
     # ---------------- clauses (a)+(b)
     with _Slice("py: every binder in its minimal context"):
@@ -811,10 +812,10 @@ def enumerate_items(thorough):
                 for b in binders:
                     add(("py", _T(b=b, b2="assign", f=f)))
     else:
-        with _Slice("py: binder x placement(depth<=3) x core uses x focus"):
+        with _Slice("py: binder x placement(depth<=3) x 4 uses x focus"):
             for o, i in pl3:
                 for b in binders:
-                    for u in core:
+                    for u in ("sub-flag", "bare", "and", "semi"):
                         for f in both:
                             add(("py", _T(b=b, o=o, i=i, u=u, f=f)))
         with _Slice("py: binder x placement(depth<=2) x every use"):
@@ -822,28 +823,31 @@ def enumerate_items(thorough):
                 for b in binders:
                     for u in uses:
                         add(("py", _T(b=b, o=o, i=i, u=u)))
-        with _Slice("py: binder x wrapper x use (module); x placement(depth<=1) x 3 uses"):
-            for w in wraps:
-                for b in binders:
-                    for u in uses:
-                        add(("py", _T(b=b, w=w, u=u)))
+        with _Slice("py: binder x wrapper x placement(depth<=1) x 3 uses; one binder per family x wrapper x every use"):
             for o, i in pl1:
                 for w in wraps:
                     for b in binders:
                         for u in ("sub-flag", "and", "semi"):
                             add(("py", _T(b=b, o=o, i=i, w=w, u=u)))
-        with _Slice("py: binder x interlude x placement(depth<=2) x 2 uses"):
+            for w in wraps:
+                for b in fam_reps:
+                    for u in uses:
+                        add(("py", _T(b=b, w=w, u=u)))
+        with _Slice("py: binder x interlude x placement(depth<=2); x placement(depth<=1) x `and`"):
             for o, i in pl2:
                 for mid in mids:
                     for b in binders:
-                        for u in ("sub-flag", "and"):
-                            add(("py", _T(b=b, o=o, i=i, mid=mid, u=u)))
-        with _Slice("py: binder pairs: every binder x every b2 x 3 placements x focus"):
-            for o, i in (("", ""), ("f", ""), ("", "f")):
+                        add(("py", _T(b=b, o=o, i=i, mid=mid)))
+            for o, i in pl1:
+                for mid in mids:
+                    for b in binders:
+                        add(("py", _T(b=b, o=o, i=i, mid=mid, u="and")))
+        with _Slice("py: binder pairs: every binder x every b2 x {module, function} x focus"):
+            for o in ("", "f"):
                 for b2 in S.B2_OK:
                     for b in binders:
                         for f in both:
-                            add(("py", _T(b=b, o=o, i=i, f=f, b2=b2)))
+                            add(("py", _T(b=b, o=o, f=f, b2=b2)))
 
     # ---------------- clause (c)
     with _Slice("del: binder x scope x del form x use x wrapper"):
@@ -878,7 +882,7 @@ def enumerate_items(thorough):
                     for u in cmd_uses:
                         add(("del", _T(b=b, o=o, u=u), "del"))
                 for w in stmt_wraps:
-                    for dform in S.DEL_ORDER:
+                    for dform in ("del", "del-multi", "del-in-with"):
                         for b in delb:
                             add(("del", _T(b=b, o=o, w=w), dform))
 
@@ -890,10 +894,10 @@ def enumerate_items(thorough):
             progs += [_T(u=u) for u in uses]
             mid_progs = [_T(b=b) for b in binders if S.B[b]["family"] in ("assign", "def", "for", "param", "import", "global", "with")]
         else:
-            progs += [_T(b=b, u=u) for b in binders for u in ("bare", "and", "semi")]
+            progs += [_T(b=b, u="semi") for b in binders]
             progs += [_T(o=o, i=i, u=u) for o, i in pl3 for u in ("sub-flag", "semi")]
             progs += [_T(u=u, w=w) for u in uses for w in wraps]
-            mid_progs = progs
+            mid_progs = [p for p in progs if p[4] == "none"]
         progs = list(dict.fromkeys(progs))
         for sep in ("nl", "semi"):
             for tail in S.TAIL_ORDER:
